@@ -433,8 +433,14 @@ fn handle_diff<T: Clone>(
 
                 // There is space for this new item.
                 res.push(VectorDiff::Insert {
-                    // Subtract 1 because `insert` adds a value compared to `previous_length`.
-                    index: (index - index_of_limit).saturating_sub(1),
+                    index: if is_full {
+                        // Subtract 1 because `insert` adds a value compared to
+                        // `previous_length`, so the view starts one item later.
+                        index - index_of_limit - 1
+                    } else {
+                        // The view isn't full: it starts at 0 and keeps doing so.
+                        index
+                    },
                     value,
                 });
             } else {
